@@ -5,8 +5,8 @@
 package seqx
 
 import (
-	"errors"
 	"context"
+	"errors"
 	"fmt"
 	"reflect"
 	"sort"
@@ -150,6 +150,13 @@ type BadJSON struct{ Text string }
 
 func (b BadJSON) MarshalJSON() ([]byte, error) { return nil, errors.New(b.Text) }
 
+// IndentedJSON marshals to valid JSON spread over several lines (encoding/json compacts it).
+type IndentedJSON struct{}
+
+func (IndentedJSON) MarshalJSON() ([]byte, error) {
+	return []byte("{\n  \"a\": 1,\n\t\"b\": [ true , null ]\r\n}"), nil
+}
+
 type Str string
 
 func (s Str) String() string { return string(s) }
@@ -169,6 +176,15 @@ type CtxProbe struct{ Seen *[]context.Context }
 func (c CtxProbe) MarshalZerologObject(e *zerolog.Event) {
 	*c.Seen = append(*c.Seen, e.GetCtx())
 	e.Str("probe", "p")
+}
+
+// CtxProbeErr is the same as an error that renders itself as an object (Err, Errs, Array.Err, Fields).
+type CtxProbeErr struct{ Seen *[]context.Context }
+
+func (c CtxProbeErr) Error() string { return "ctxprobe" }
+func (c CtxProbeErr) MarshalZerologObject(e *zerolog.Event) {
+	*c.Seen = append(*c.Seen, e.GetCtx())
+	e.Str("probe", "pe")
 }
 
 // ---- application ----
